@@ -50,7 +50,7 @@ def handle (kv : KV) : String :=
     let buffered : Option String :=
       if adapter == "bufreader" || adapter == "bufreader-seekskip" || adapter == "refmut" || adapter == "box" || adapter == "file"
           || adapter == "abufreader" || adapter == "apinbox" || adapter == "sparse-bufreader"
-          || adapter == "abufreader-pend" || adapter == "apinbox-pend" then
+          || adapter == "abufreader-pend" || adapter == "apinbox-pend" || adapter == "arefmut" || adapter == "abox" then
         some (",".intercalate (runOps (bufOps cap raw) ops ⟨0, []⟩))
       else if adapter == "bufreader-box-bufreader" || adapter == "abufreader-abufreader" then
         some (",".intercalate (runOps (bufOps cap (bufRaw 3 raw)) ops ⟨⟨0, []⟩, []⟩))
